@@ -286,3 +286,20 @@ CHECKS["C13"] = {
          "checks_quick": 10, "checks_thorough": 250, "shards_quick": 8, "shards_thorough": 16, "timeout_quick": 400, "timeout_thorough": 2400},
     ],
 }
+
+CHECKS["C02"] = {
+    "level": "fault_enumeration",
+    "technique": "property-based testing of workloads with generated fault schedules (victim role, graceful/abrupt, between or inside operations via crash points) against an admissible-value model (rapid)",
+    "level_text": ("Private in-process clusters (N 3-5, R 2-3, W = RQ = 1, read-repair on/off, small tables, fast failure detection) run a generated workload of Put/Delete/Get through random live members with up to R-1 member stops: "
+                   "the victim is chosen by role for a key (its primary owner, a backup owner, the coordinator, a bystander), stopped gracefully or abruptly, between two operations or inside the owner's write of that key at a hook point "
+                   "(after a backup was written, before the local write, after previous owners / backups were deleted). After every stop the harness waits for re-stabilisation and then reads every asserted key from every survivor: "
+                   "the value must be admissible (the last acknowledged value, or one of the values of writes that failed or were cut), all survivors must agree, acknowledged Deletes must stay not-found, and the workload continues against the same model."),
+    "level_note": ("trusted: the in-process abrupt stop (RESP server closed, gossip stopped without leave, services cancelled; goroutines already past the crash point are parked) - a SIGKILL of a separate process is not used; "
+                   "only writes acknowledged while >= R members were present are asserted; a stabilisation time-out makes the case inconclusive"),
+    "rule": ("case = (N, R, partitions, read-repair, keys, operations incl. stops); non-trivial = a stop of the primary or a backup owner of an asserted key after at least one asserted key had been overwritten or deleted; distinct = distinct case hash"),
+    "assumptions": ["at most R-1 stops in total (Olric does not re-create lost redundancy)"],
+    "parts": [
+        {"name": "durability", "pkg": ROOT, "test": "TestVerifC02", "kind": "rapid",
+         "checks_quick": 6, "checks_thorough": 120, "shards_quick": 8, "shards_thorough": 16, "timeout_quick": 400, "timeout_thorough": 2400},
+    ],
+}
